@@ -434,6 +434,44 @@ def gen_info(tr):
     side = {"modules": [n for n, _ in mods]}
     return "\n".join(lines), side
 
+def gen_observed() -> str:
+    """rows (name, primitive type) -> what `PrimitiveField.parse_obj` makes of it"""
+    import importlib
+
+    sys.path.insert(0, kioload.REPO)
+    try:
+        parser = importlib.import_module("codegen.parser")
+    finally:
+        sys.path.pop(0)
+    names = ["timeoutMs", "TimeoutMs", "ThrottleTimeMs", "MaxWaitMs", "SessionLifetimeMs", "TransactionTimeoutMs",
+             "MaxLifetimeMs", "SessionTimeoutMs", "RebalanceTimeoutMs", "ExpiryTimePeriodMs", "RenewPeriodMs",
+             "RetentionTimeMs", "HeartbeatIntervalMs", "PushIntervalMs", "IssueTimestampMs", "ExpiryTimestampMs",
+             "MaxTimestampMs", "TransactionStartTimeMs", "LogAppendTimeMs", "ErrorCode", "PartitionErrorCode",
+             "Foo", "FooMs", "Ms", "ms", "Timeout", "ThrottleTime", "errorCode", "ErrorCodeMs", "throttleTimeMs"]
+    # every string the parser module keeps in a set/tuple/list of names is a candidate too: a name
+    # added to (or dropped from) one of its tables shows up as a row the model does not predict
+    for obj in vars(parser).values():
+        if isinstance(obj, (set, frozenset, tuple, list)) and obj and all(isinstance(x, str) for x in obj):
+            for x in sorted(obj):
+                if x not in names and x.isascii() and x.isidentifier():
+                    names.append(x)
+    prims = ["bool", "int8", "int16", "int32", "int64", "uint16", "uint32", "uint64", "float64", "string", "bytes",
+             "uuid", "records"]
+    rows = []
+    for n in names:
+        for t in prims:
+            try:
+                f = parser.PrimitiveField.parse_obj({"name": n, "type": t, "versions": "0+", "about": ""})
+                out = f'(some ("{f.type.value}", "{f.name}"))'
+            except Exception:  # noqa: BLE001
+                out = "none"
+            rows.append(f'  ⟨"{n}", .{t}, {out}⟩')
+    return ("import Kio.Gen.Observed\n/-! generated by harness/translate.py — do not edit -/\n"
+            "namespace Kio.Generated\nopen Kio Kio.Gen\n"
+            "def resolveRows : List ResolveRow := [\n" + ",\n".join(rows) + "]\n"
+            "end Kio.Generated\n")
+
+
 def write_if_changed(path: str, content: str) -> bool:
     try:
         with open(path) as fh:
@@ -588,6 +626,10 @@ def main():
         "end Kio.Generated\n")
     if write_if_changed(os.path.join(GEN_DIR, "Dispatch.lean"), dispatch_src):
         changed.append("Dispatch")
+    # ---- the generator's name-based special cases, observed (C16/C04) -------------------------
+    obs_src = gen_observed()
+    if write_if_changed(os.path.join(GEN_DIR, "GenObserved.lean"), obs_src):
+        changed.append("GenObserved")
     allc = (
         "".join(f"import Kio.Generated.Classes{s}\n" for s in range(SHARDS))
         + "/-! generated by harness/translate.py — do not edit -/\nnamespace Kio.Generated\nopen Kio\n"
